@@ -672,6 +672,15 @@ func newPlistLineSorter(plines []*PlistLine) *plistLineSorter {
 			unsortable = pline.Line
 		}
 	}
+
+	// A last line that does not end with a newline cannot be moved to
+	// another place of the file without being joined with the next line.
+	if n := len(plines); n > 0 && unsortable == nil {
+		raw := plines[n-1].Line.raw
+		if len(raw) > 0 && !hasSuffix(raw[len(raw)-1].orignl, "\n") {
+			unsortable = plines[n-1].Line
+		}
+	}
 	return &plistLineSorter{header, middle, footer, unsortable, false, false}
 }
 
